@@ -2,6 +2,7 @@ import CLModel.Model.NonRevoc
 import CLModel.Proofs.Registry
 import CLModel.Proofs.Guards
 import CLModel.Props.C09
+import CLModel.Proofs.WitnessSig
 import Mathlib.Tactic.LinearCombination
 import Mathlib.Tactic.Ring
 import Mathlib.Tactic.FieldSimp
@@ -238,5 +239,35 @@ theorem omission_guard_from_source :
 premise about the code): `m2` is the primary proof's response and `c = −c_H` unless
 `accept_legacy` AND `x_list.m2` is present -/
 theorem legacy_m2_from_source : Gen.legacyM2OnlyWhenAccepted = true := rfl
+
+section accepted_credential
+variable {K : Type} [Field K] [DecidableEq K]
+
+/-- **what the holder accepted, the verifier accepts**: the four equations of the holder's check
+of a revocation signature (`_test_witness_signature`, with `witness_signature.g_i = g_i`) are
+exactly `CredValid` … -/
+theorem holder_check_iff_cred_valid (k : RevKey K) (acc z : K) (cr : Cred K) :
+    testWitnessSignature ringOps k acc z cr.gI cr = true ↔ CredValid k acc z cr := by
+  rw [test_iff]
+  constructor
+  · rintro ⟨h1, h2, h3, h4⟩
+    exact ⟨h1, by linear_combination h2, by linear_combination h4, by linear_combination h3⟩
+  · rintro ⟨h1, h2, h3, h4⟩
+    exact ⟨h1, by linear_combination h2, by linear_combination h4, by linear_combination h3⟩
+
+/-- … so for a credential that passed the holder's check against the registry state both sides
+use, every non-revocation proof the honest algorithm builds — any blinders, any challenge — is
+recomputed by the verifier value for value (composition with `nonrevoc_complete`). Before the
+repair 5a007e0 the holder's check did not cover `u_i` and this implication was false. -/
+theorem holder_accepted_credential_verifies (k : RevKey K) (acc z : K) (cr : Cred K)
+    (h : testWitnessSignature ringOps k acc z cr.gI cr = true) (hpk : ∃ sk, k.pk = sk * k.g)
+    (tp : CTape K) (tau : XList K) (cH m2tilde : K) :
+    let cp := cListParams ringOps cr tp
+    let cl := cListValues ringOps k cr cp
+    verify ringOps k acc z cH (m2tilde + cH * cr.m2) ⟨responses tau cp cH, cl⟩ false
+      = tauValues ringOps k acc tau cl m2tilde :=
+  nonrevoc_complete k acc z cr ((holder_check_iff_cred_valid k acc z cr).1 h) hpk tp tau cH m2tilde
+
+end accepted_credential
 
 end CL.C10
